@@ -48,6 +48,10 @@ def run_one(path, scratch, tier="quick", only_prop=None, expects=None, baseline=
         expects = expects0
     if only_prop is not None:
         props = [only_prop]
+        # a patch that several packs must catch lists one expectation per pack: keep those of the pack being replayed
+        mine = [e for e in expects if e == "silent" or e.startswith(only_prop + ".")]
+        if mine:
+            expects = mine
     r = subprocess.run(["git", "apply", "--unsafe-paths", "--directory", scratch, path], cwd="/", capture_output=True, text=True)
     if r.returncode != 0:
         r = subprocess.run(["patch", "-p1", "-s", "-d", scratch, "-i", path], capture_output=True, text=True)
